@@ -242,8 +242,8 @@ class _DState:
         except Exception as e:   # noqa
             exc = e
         if existed and not op['overwrite']:
-            if not isinstance(exc, OSError):
-                raise Viol('datadir.overwrite', f'write_txt:replaced_without_overwrite:{type(exc).__name__ if exc else "no_exception"}', name)
+            if exc is None:      # refusing is what is owed; the class of the exception is not named
+                raise Viol('datadir.overwrite', 'write_txt:replaced_without_overwrite', name)
             if snap_diff(pre, snapshot(self.path)):
                 raise Viol('datadir.overwrite', 'write_txt:refused_but_changed', name)
             self.probe('overwrite_refused')
@@ -268,8 +268,8 @@ class _DState:
         except Exception as e:   # noqa
             exc = e
         if existed and not op['overwrite']:
-            if not isinstance(exc, OSError):
-                raise Viol('datadir.overwrite', f'write_jsondict:replaced_without_overwrite:{type(exc).__name__ if exc else "no_exception"}', name)
+            if exc is None:      # refusing is what is owed; the class of the exception is not named
+                raise Viol('datadir.overwrite', 'write_jsondict:replaced_without_overwrite', name)
             if snap_diff(pre, snapshot(self.path)):
                 raise Viol('datadir.overwrite', 'write_jsondict:refused_but_changed', name)
             self.probe('overwrite_refused')
@@ -295,8 +295,8 @@ class _DState:
         except Exception as e:   # noqa
             exc = e
         if existed and not op['overwrite']:
-            if not isinstance(exc, OSError):
-                raise Viol('datadir.overwrite', f'write_jsonfile:replaced_without_overwrite:{type(exc).__name__ if exc else "no_exception"}', name)
+            if exc is None:      # refusing is what is owed; the class of the exception is not named
+                raise Viol('datadir.overwrite', 'write_jsonfile:replaced_without_overwrite', name)
             if snap_diff(pre, snapshot(self.path)):
                 raise Viol('datadir.overwrite', 'write_jsonfile:refused_but_changed', name)
             return
@@ -327,10 +327,17 @@ class _DState:
         except Exception as e:   # noqa
             exc = e
         if cur is None or cur[0] != 'json' or not isinstance(cur[1], dict):
-            if exc is None:
-                raise Viol('datadir.user', 'update_jsondict:accepted_non_dict_or_missing', name)
-            if snap_diff(pre, snapshot(self.path)):
-                raise Viol('datadir.user', 'update_jsondict:failed_but_changed', name)
+            # the statement says nothing about updating a missing or non-dictionary user file: not judged;
+            # the model follows whatever the file holds now
+            self.files.pop(name, None)
+            post = snapshot(self.path)
+            if name in post and post[name][0] == 'file':
+                import json
+                try:
+                    self.files[name] = ('json', json.loads(post[name][2].decode('utf-8')))
+                except ValueError:
+                    self.files[name] = ('raw', None)
+            self.probe('update_jsondict_on_missing_or_non_dict:' + (type(exc).__name__ if exc else 'accepted'))
             return
         if exc is not None:
             raise Viol('datadir.user', f'update_jsondict:raises:{type(exc).__name__}', str(exc)[:200])
@@ -387,7 +394,7 @@ class _DState:
         except Exception as e:   # noqa
             exc = e
         if existed:
-            if not isinstance(exc, OSError) or snap_diff(pre, snapshot(self.path)):
+            if exc is None or snap_diff(pre, snapshot(self.path)):
                 raise Viol('datadir.overwrite', 'open_file_x_on_existing', name)
             return
         if exc is not None:
